@@ -107,6 +107,7 @@ type FuncSpec struct {
 	NoHavoc   bool
 	Reveal    []string
 	RelInline []string // callees executed inline in relational (two-run) mode
+	Inlines   []string // callees executed inline in this function's proof (their call events stay visible)
 	Implements string
 	GhostSets [][2]string // ghost assignments performed at function exit: target, expression
 }
@@ -358,6 +359,10 @@ func (sp *Specs) parseFile(repo, file string) error {
 				return fmt.Errorf("%s:%d: ghostset target = expr", file, pendingLine)
 			}
 			curF.GhostSets = append(curF.GhostSets, [2]string{strings.TrimSpace(rest[:i]), strings.TrimSpace(rest[i+1:])})
+		case "inlines":
+			for _, n := range splitList(rest) {
+				curF.Inlines = append(curF.Inlines, qualify(pkg, n))
+			}
 		case "relational_inline":
 			for _, n := range splitList(rest) {
 				curF.RelInline = append(curF.RelInline, qualify(pkg, n))
